@@ -106,8 +106,8 @@ class Bounds(object):
     def _flow_transfer(self, n, st, pos):
         k = n["k"]
         f = self.f
-        if k == "DeclStmt":
-            for ch in n.get("c", []):
+        if k in ("DeclStmt", "VarDecl"):
+            for ch in (n.get("c", []) if k == "DeclStmt" else [n]):
                 if ch.get("k") == "VarDecl" and ch.get("c"):
                     t = facts.tyi(f, ch.get("t"))
                     if t and t.get("k") in ("int", "bool", "enum"):
